@@ -500,7 +500,7 @@ def shapes(tier, seed):
         for spec in ion_placements(name):
             for nq in (None, 3, 4):
                 circs.append(([spec], nq))
-        out.append(Shape(f"ionq/single/{name}", h_ionq, dict(circuits=circs), modules=M_IONQ))
+        out.append(Shape(f"ionq/single/{name}", h_ionq, dict(circuits=circs), modules=M_IONQ, policy=dict(truth="fork")))
     nseq = 40 if thorough else 8
     for i in range(nseq):
         circs = [(_rand_ion_seq(rnd, 3 if thorough else rnd.choice((2, 3))), rnd.choice((None, 3, 5))) for _ in range(12)]
